@@ -227,14 +227,23 @@ func (cs *c10Server) observe(res map[string]any) error {
 // ---------------------------------------------------------------- the property predicate (implementation alone)
 
 type c10Verdict struct {
-	ok  bool
-	why string
+	ok    bool
+	whys  []string
+	codes []string // one short class per failed clause; "rate>=2^63" is the known uint64->int64 finding
 }
 
-func (v *c10Verdict) fail(format string, a ...any) {
-	if v.ok {
-		v.ok = false
-		v.why = fmt.Sprintf(format, a...)
+func (v *c10Verdict) failc(code, format string, a ...any) {
+	v.ok = false
+	v.whys = append(v.whys, fmt.Sprintf(format, a...))
+	v.codes = append(v.codes, code)
+}
+
+func (v *c10Verdict) fail(format string, a ...any) { v.failc("other", format, a...) }
+
+func (v *c10Verdict) store(res map[string]any) {
+	res["ok"], res["why"] = v.ok, strings.Join(v.whys, "; ")
+	if !v.ok {
+		res["codes"] = v.codes
 	}
 }
 
@@ -267,7 +276,11 @@ func c10Side(v *c10Verdict, who string, wantFixed bool, rate uint64, cfgKind str
 		v.fail("%s: reported rate %d, negotiated rate must be %d", who, reported, rate)
 	}
 	if bps < 0 || uint64(bps) != reported {
-		v.fail("%s: reported rate %d but the installed Brutal sender runs at %d B/s", who, reported, bps)
+		code := "enforced!=reported"
+		if reported >= 1<<63 && bps == int64(reported) {
+			code = "rate>=2^63" // the uint64 rate reinterpreted as a negative int64 ByteCount
+		}
+		v.failc(code, "%s: reported rate %d but the installed Brutal sender runs at %d B/s", who, reported, bps)
 	}
 }
 
@@ -343,7 +356,7 @@ func c10Codec(c c10Case, res map[string]any) {
 			v.fail("response header round trip: sent rx=%d auto=%v, decoded rx=%d auto=%v", c.N, c.Auto, back.Rx, back.RxAuto)
 		}
 	}
-	res["ok"], res["why"] = v.ok, v.why
+	v.store(res)
 }
 
 func c10Cfg(c c10Case, res map[string]any) {
@@ -361,7 +374,7 @@ func c10Cfg(c c10Case, res map[string]any) {
 	if err == nil && (cfg.BandwidthConfig.MaxTx != c.STx || cfg.BandwidthConfig.MaxRx != c.SRx) {
 		v.fail("fill() changed the bandwidth limits")
 	}
-	res["ok"], res["why"] = v.ok, v.why
+	v.store(res)
 }
 
 func c10Brutal(c c10Case, res map[string]any) {
@@ -372,7 +385,7 @@ func c10Brutal(c c10Case, res map[string]any) {
 
 func c10Handshake(c c10Case, res map[string]any) {
 	v := &c10Verdict{ok: true}
-	defer func() { res["ok"], res["why"] = v.ok, v.why }()
+	defer v.store(res)
 	cs, err := c10StartServer(c)
 	if err != nil {
 		res["err"] = "server"
@@ -409,22 +422,30 @@ func c10Handshake(c c10Case, res map[string]any) {
 	c10Side(v, "client", cf, cr, c10ConfiguredKind(c.CType), info.Tx, ck, cb)
 }
 
-// c10Declared reads a header value the way the protocol text does: a decimal uint64, or not a number.
+// c10Declared reads a header value the way the protocol text does: a decimal uint64 (wellFormed), or
+// not a number.  overflow = the leading run of decimal digits already exceeds 2^64-1 (a numeral
+// too large for a uint, with or without trailing junk): the protocol text does not say how such a
+// declaration reads, so the verdict accepts "unknown" as well as "saturated" for it, and nothing else.
 func c10Declared(hdr *string) (val uint64, wellFormed bool, overflow bool) {
 	if hdr == nil || *hdr == "" {
 		return 0, false, false
 	}
-	for _, ch := range []byte(*hdr) {
-		if ch < '0' || ch > '9' {
-			return 0, false, false
-		}
+	k := 0
+	for k < len(*hdr) && (*hdr)[k] >= '0' && (*hdr)[k] <= '9' {
+		k++
 	}
-	n, ok := new(big.Int).SetString(*hdr, 10)
+	if k == 0 {
+		return 0, false, false
+	}
+	n, ok := new(big.Int).SetString((*hdr)[:k], 10)
 	if !ok {
 		return 0, false, false
 	}
 	if n.BitLen() > 64 {
 		return 0, false, true
+	}
+	if k < len(*hdr) {
+		return 0, false, false
 	}
 	return n.Uint64(), true, false
 }
@@ -432,7 +453,7 @@ func c10Declared(hdr *string) (val uint64, wellFormed bool, overflow bool) {
 // raw HTTP/3 client -> real server
 func c10RawReq(c c10Case, res map[string]any) {
 	v := &c10Verdict{ok: true}
-	defer func() { res["ok"], res["why"] = v.ok, v.why }()
+	defer v.store(res)
 	cs, err := c10StartServer(c)
 	if err != nil {
 		res["err"] = "server"
@@ -510,7 +531,7 @@ func c10RawReq(c c10Case, res map[string]any) {
 // real client -> fake HTTP/3 server answering 233 with an arbitrary Hysteria-CC-RX
 func c10RawResp(c c10Case, res map[string]any) {
 	v := &c10Verdict{ok: true}
-	defer func() { res["ok"], res["why"] = v.ok, v.why }()
+	defer v.store(res)
 	pc, err := net.ListenUDP("udp", &net.UDPAddr{IP: net.IPv4(127, 0, 0, 1), Port: 0})
 	if err != nil {
 		v.fail("listen: %v", err)
@@ -573,17 +594,11 @@ func c10RawResp(c c10Case, res map[string]any) {
 		cf, cr := c10ClientWant(auto, c.CTx, decl)
 		c10Side(v, "client", cf, cr, c10ConfiguredKind(c.CType), info.Tx, ck, cb)
 	default:
-		// missing / malformed / overflowing declaration: whatever the client picks, it must not
-		// exceed its own limit, and reported == enforced
+		// missing / malformed declaration reads as 0 = unlimited (parse failure -> 0); a numeral
+		// beyond uint64 reads as 0 or saturates: for the client all of these give min = own limit
 		_ = ovf
-		if ck == "brutal" {
-			if c.CTx == 0 || info.Tx > c.CTx {
-				v.fail("client: rate %d exceeds its own limit %d", info.Tx, c.CTx)
-			}
-			c10Side(v, "client", true, info.Tx, "", info.Tx, ck, cb)
-		} else {
-			c10Side(v, "client", false, 0, c10ConfiguredKind(c.CType), info.Tx, ck, cb)
-		}
+		cf, cr := c10ClientWant(false, c.CTx, 0)
+		c10Side(v, "client", cf, cr, c10ConfiguredKind(c.CType), info.Tx, ck, cb)
 	}
 }
 
